@@ -550,7 +550,8 @@ def gen_bms_doc(r: random.Random, hi: int = 6, layout: str | None = None, odd_te
 
 def gen_bms_fmt(r: random.Random, knobs: dict) -> dict:
     return dict(newline="lf" if knobs.get("stored_newline") == "lf" else "crlf", lead_comment=r.random() < 0.4,
-                blank_between=r.random() < 0.3, indent_lines=r.choice([False, False, False, "some", "all"]))
+                blank_between=r.random() < 0.3, indent_lines=r.choice([False, False, False, "some", "all"]),
+                header_sep=r.choice(["space", "space", "space", "tab"]), lower_commands=r.random() < 0.12)
 
 
 # ---------------------------------------------------------------- O2Jam (binary first, C07)
